@@ -6,8 +6,8 @@ Local Open Scope N_scope.
 
 Definition w32 : N := 4294967296.
 Definition mask32 : N := 4294967295.
-Definition add32 (a b : N) : N := (a + b) mod w32.
-Definition rotr (n x : N) : N := N.lor (N.shiftr x n) ((N.shiftl x (32 - n)) mod w32).
+Definition add32 (a b : N) : N := N.land (a + b) mask32.
+Definition rotr (n x : N) : N := N.lor (N.shiftr x n) (N.land (N.shiftl x (32 - n)) mask32).
 Definition shr (n x : N) : N := N.shiftr x n.
 Definition not32 (x : N) : N := N.lxor x mask32.
 Definition ch (x y z : N) : N := N.lxor (N.land x y) (N.land (not32 x) z).
@@ -54,10 +54,10 @@ Fixpoint words_of_bytes (bs : list N) : list N :=
   | _ => []
   end.
 Definition bytes_of_word (w : N) : list N :=
-  [N.shiftr w 24 mod 256; N.shiftr w 16 mod 256; N.shiftr w 8 mod 256; w mod 256].
+  [N.land (N.shiftr w 24) 255; N.land (N.shiftr w 16) 255; N.land (N.shiftr w 8) 255; N.land w 255].
 
 Definition be64 (n : N) : list N :=
-  map (fun k => N.shiftr n (8 * k) mod 256) [7; 6; 5; 4; 3; 2; 1; 0].
+  map (fun k => N.land (N.shiftr n (8 * k)) 255) [7; 6; 5; 4; 3; 2; 1; 0].
 
 Definition sha_pad (msg : list N) : list N :=
   let l := N.of_nat (length msg) in
